@@ -17,7 +17,7 @@ def ofEntries (es : List Entry) : Sx := Sx.list (es.map (fun e => Sx.ofNat e.uid
 
 /-- one operation on the store:
     `(append (<key> ...) completed runid target task status uid)` → `ok` | `typeError`
-    `(find now after before limit succeeded)` (`N` = None)       → `(ok uid ...)` | `valueError`
+    `(find now after before limit succeeded aoff boff)` (`N` = None; offsets in minutes) → `(ok uid ...)` | `valueError`
     `(files)` → `((y m d runid (uid ...)) ...)` in store order
     `(keep after completed before entryStatus status)` → `T`/`F` (the generated test of `_load`) -/
 def step (j : Journal) : Sx → Journal × Sx
@@ -28,13 +28,13 @@ def step (j : Journal) : Sx → Journal × Sx
       | .ok j' => (j', Sx.atom "ok")
       | .error _ => (j, Sx.atom "typeError")
     | _, _ => (j, Sx.err "append")
-  | Sx.list [Sx.atom "find", now, after, before, limit, succ] =>
-    match now.int?, optInt? after, optInt? before, optInt? limit, succ.bool? with
-    | some now, some a, some b, some l, some s =>
-      match find j now a b l s with
+  | Sx.list [Sx.atom "find", now, after, before, limit, succ, aoff, boff] =>
+    match now.int?, optInt? after, optInt? before, optInt? limit, succ.bool?, aoff.int?, boff.int? with
+    | some now, some a, some b, some l, some s, some ao, some bo =>
+      match find j now (a.map (fun t => ⟨t, ao⟩)) (b.map (fun t => ⟨t, bo⟩)) l s with
       | .ok r => (j, Sx.list (Sx.atom "ok" :: r.map (fun e => Sx.ofNat e.uid)))
       | .error _ => (j, Sx.atom "valueError")
-    | _, _, _, _, _ => (j, Sx.err "find")
+    | _, _, _, _, _, _, _ => (j, Sx.err "find")
   | Sx.list [Sx.atom "files"] =>
     (j, Sx.list (j.map (fun f => Sx.list [Sx.ofInt f.dir.year, Sx.ofInt f.dir.month,
       Sx.ofInt f.dir.day, Sx.ofInt f.runid, ofEntries f.entries])))
